@@ -49,7 +49,7 @@ def keepIf (test : Term) : Term :=
 
 def kvExtract : Term := Term.app "operator.itemgetter" [Term.app "*" [Term.app ".keys" [Term.sym "key_value_pairs"]]]
 def kvValues (truth : Term → Bool) : Term :=
-  let vs := Term.app "tuple" [Term.app ".values" [Term.sym "key_value_pairs"]]
+  let vs := Term.app "tuple()" [Term.app ".values" [Term.sym "key_value_pairs"]]
   if truth (Term.app "Eq" [Term.app "len" [vs], Term.int 1]) then Term.app "getitem" [vs, Term.int 0] else vs
 
 /-- filter as written: with a callable, the items for which it is truthy; with key=value pairs, the items whose
@@ -62,7 +62,7 @@ theorem filter_code (truth : Term → Bool) :
       else Out.fall [] := by
   unfold ListOfDicts_filter kvValues
   cases truth (Term.app "callable" [Term.sym "function"]) <;> cases truth (Term.sym "key_value_pairs") <;>
-    cases truth (Term.app "Eq" [Term.app "len" [Term.app "tuple" [Term.app ".values" [Term.sym "key_value_pairs"]]], Term.int 1]) <;> rfl
+    cases truth (Term.app "Eq" [Term.app "len" [Term.app "tuple()" [Term.app ".values" [Term.sym "key_value_pairs"]]], Term.int 1]) <;> rfl
 
 /-- filter_out is the exact complement: `not function(item)` / `extract(item) != values` (the negation of the WHOLE
     conjunction: an item matching only some pairs is kept). -/
@@ -75,13 +75,13 @@ theorem filter_out_code (truth : Term → Bool) :
       else Out.fall [] := by
   unfold ListOfDicts_filter_out kvValues
   cases truth (Term.app "callable" [Term.sym "function"]) <;> cases truth (Term.sym "key_value_pairs") <;>
-    cases truth (Term.app "Eq" [Term.app "len" [Term.app "tuple" [Term.app ".values" [Term.sym "key_value_pairs"]]], Term.int 1]) <;> rfl
+    cases truth (Term.app "Eq" [Term.app "len" [Term.app "tuple()" [Term.app ".values" [Term.sym "key_value_pairs"]]], Term.int 1]) <;> rfl
 
 /-- the first-seen scan of `unique`: an item is yielded exactly when its key tuple has not been seen; the keys are the given
     ones, or — only when none are given — the keys common to all items.  Nothing else (no grouping state) enters. -/
 theorem unique_code (truth : Term → Bool) (hne : truth (Term.sym "self") = true) (hkeys : truth (Term.sym "keys") = true) :
     ListOfDicts_unique truth =
-      let seen := Term.app "set" []
+      let seen := Term.app "set()" []
       let extract := Term.app "operator.itemgetter" [Term.app "*" [Term.sym "keys"]]
       Out.fall [Term.app "for" [Term.sym "item", Term.sym "self", Term.app "block"
         [Term.app "assign" [Term.sym "id", Term.app "call" [extract, Term.sym "item"]],
@@ -109,7 +109,7 @@ def sortKeyDef : Term :=
 theorem sort_code (truth : Term → Bool) :
     ListOfDicts_sort truth =
       let loop := Term.app "for" [Term.app "tuple" [Term.sym "key", Term.sym "dir"],
-        Term.app "getitem" [Term.app "list" [Term.app ".items" [Term.sym "key_dir_pairs"]],
+        Term.app "getitem" [Term.app "list()" [Term.app ".items" [Term.sym "key_dir_pairs"]],
           Term.app "slice" [Term.sym "None", Term.sym "None", Term.int (-1)]],
         Term.app "block"
           [Term.app "if" [Term.app "NotIn" [Term.sym "dir", Term.app "list" [Term.int 1, Term.int (-1)]],
@@ -212,7 +212,7 @@ theorem insert_code (truth : Term → Bool) :
     ListOfDicts_insert truth =
       let it := if truth (Term.app "isinstance" [Term.sym "item", Term.sym "AttributeDict"]) then Term.sym "item"
                 else Term.app "AttributeDict" [Term.sym "item"]
-      let items := Term.app "list" [Term.sym "self"]
+      let items := Term.app "list()" [Term.sym "self"]
       Out.fall [Term.app ".insert" [items, Term.sym "index", it], Term.app "yield-from" [items]] := by
   unfold ListOfDicts_insert
   cases truth (Term.app "isinstance" [Term.sym "item", Term.sym "AttributeDict"]) <;> rfl
